@@ -163,6 +163,27 @@ def r12_3(ctx, rc):
             rc.ok({'must_pass': name}, key=key)
 
 
+def r12_3b(ctx, rc):
+    """Order inside clean: files, then the cache file, then directories -
+    a directory that holds the cache file is empty only afterwards."""
+    F = _clean(ctx)
+    sg = ctx.E.super(F, lambda g: False)
+    rm = ctx.R.builder + '._try_to_remove_file'
+    dr = ctx.R.builder + '._remove_empty_dirs'
+    starts = [x.id for x in sg.nodes if Q.is_call(x, dr)]
+    seen = sg.reach(starts)
+    late = [x for x in sg.nodes if x.id in seen and Q.is_call(x, rm)]
+    key = 'clean removes files (and the cache file) before directories'
+    if late:
+        rc.violation('clean-order | ' + F.qualname,
+                     'clean tries to remove directories before it removed '
+                     'the files in them (the directory that holds the cache '
+                     'file or an output is not empty yet and stays behind)',
+                     late[0].where(), key=key)
+    else:
+        rc.ok({'order': key}, key=key)
+
+
 def r12_4(ctx, rc):
     R = ctx.R
     prog = ctx.prog
@@ -220,8 +241,12 @@ def r12_4(ctx, rc):
 
 
 def r12_4b(ctx, rc):
-    from .c16 import r16_2
+    from .c16 import r16_2, r16_5, r16_6
     r16_2(ctx, rc)
+    # clean works from the recorded outputs: every registered operation must
+    # reach the cache file
+    r16_5(ctx, rc)
+    r16_6(ctx, rc)
 
 
 def r12_5(ctx, rc):
@@ -338,6 +363,7 @@ RULES = [
      r12_2),
     ('R12.3', 'the cache file and recorded outputs are always removed',
      r12_3),
+    ('R12.3b', 'clean removes files before directories', r12_3b),
     ('R12.4', 'the created-directory set is persisted', r12_4),
     ('R12.4b', 'createdDirs is written from and read back into one field',
      r12_4b),
